@@ -62,7 +62,7 @@ fn explore() {
         let phase = phase.clone();
         let out = out.clone();
         handles.push(std::thread::spawn(move || {
-            let ctx = Ctx::new(&phase, nmax);
+            let mut ctx = Ctx::new(&phase, nmax);
             let mut o = NdJson::create(&format!("{}/edges-{}.ndjson", out, w));
             let mut od = NdJson::create(&format!("{}/details-{}.ndjson", out, w));
             let mut nedges = 0u64;
@@ -106,6 +106,13 @@ fn explore() {
                             }
                         } else {
                             let resp = ctx.apply(r);
+                            if resp["err"].as_str().unwrap_or("").starts_with("PANIC") {
+                                // a panic under the channel lock poisons the mutex: the signer object
+                                // is discarded (as a crashed process would be) and the request counts
+                                // as refused with the state as it was
+                                ctx = Ctx::new(&phase, nmax);
+                                ctx.restore(&pre);
+                            }
                             (resp, ctx.snap(), None)
                         };
                         let dpost = comp_digests(&post, ctx.fx.network, &ctx.fx);
@@ -192,7 +199,7 @@ fn run_seqs() {
     let phase = arg_or("phase", "ready");
     let seqs = std::fs::read_to_string(arg("seqs").unwrap()).unwrap();
     let mut o = NdJson::create(&arg("out").unwrap());
-    let ctx = Ctx::new(&phase, nmax);
+    let mut ctx = Ctx::new(&phase, nmax);
     let s0 = ctx.snap();
     let mut nseq = 0;
     for line in seqs.lines() {
@@ -216,6 +223,10 @@ fn run_seqs() {
                 }
             } else {
                 let resp = ctx.apply(r);
+                if resp["err"].as_str().unwrap_or("").starts_with("PANIC") {
+                    ctx = Ctx::new(&phase, nmax);
+                    ctx.restore(&cur);
+                }
                 let (view, _) = restart_view(&ctx);
                 (resp, ctx.snap(), view)
             };
